@@ -80,6 +80,9 @@ pub fn run_history<L: HLang>(ops: &[Op], check_each: bool) -> Result<Vec<String>
                 }
             }
             Op::Union(i, j) => {
+                if *i >= tracked.len() || *j >= tracked.len() {
+                    continue; // shrunk histories may lose the insertion a union refers to: skipped on both sides
+                }
                 let (a, b) = (tracked[*i].clone(), tracked[*j].clone());
                 if let Err(e) = guarded(|| eg.union(&a, &b)) {
                     return Err(format!("op{k}:union {e}"));
